@@ -60,7 +60,8 @@ class ReadIdSplitReadGrouper(AbstractReadGrouper):
         values = read_id.split(self.delim)
         if len(values) == 1:
             logger.warning("Delimiter %s is not present in read id %s, skipping" % (self.delim, read_id))
-            return
+            self.read_groups.add(self.default_group_id)
+            return self.default_group_id
 
         self.read_groups.add(values[-1])
         return values[-1]
